@@ -23,7 +23,8 @@ RULE = ("directory trees of depth <= 3 built from names {a, b, c, pkg_x, mod_y, 
         "every dotted name derivable from the tree (files, directories, intermediate names) plus absent names the "
         "resolution is compared with FileFinder; found paths go through modpath_to_modname, split_modpath and "
         "import_module_from_path.  Non-trivial = the name has at least two parts or names a directory; distinct by "
-        "(tree listing, name) hash")
+        "(tree listing, name) hash.  Plus the interpreter's own installation: about 600 standard-library and site-packages "
+        "module names (real extension modules, packages, frozen modules) against importlib.util.find_spec")
 ASSUMPTIONS = [
     "PEP 420 namespace packages count as 'not found' (xdoctest documents no PEP 420 support); .pyc-only modules are "
     "not generated; extension modules are empty files carrying one of the interpreter's EXTENSION_SUFFIXES (located, "
@@ -39,7 +40,7 @@ NAMES = ['a', 'b', 'c', 'pkg_x', 'mod_y', '_p', 'test__init__', 'run__main__', '
 def required_cells(tier):
     return ['resolve:found-module', 'resolve:found-package', 'resolve:absent', 'resolve:broken-chain',
             'resolve:module-and-package', 'roundtrip', 'split', 'import', 'resolve:main-file',
-            'import:failing-leaves-syspath', 'resolve:module-beside-plain-directory', 'import:root-already-on-syspath', 'resolve:extension-module']
+            'import:failing-leaves-syspath', 'resolve:module-beside-plain-directory', 'import:root-already-on-syspath', 'resolve:extension-module', 'installation:file', 'installation:roundtrip']
 
 
 def build(rng, root, uniq):
@@ -242,15 +243,72 @@ def check_tree(ctx, idx, seed):
             del sys.modules[m]
 
 
+def check_installation(ctx):
+    """the interpreter's own installation as a tree: every standard-library / site-packages module name the import
+    system can locate as a file must resolve to that file (real extension modules, packages, frozen modules' sources)"""
+    import pkgutil
+    import importlib.util
+    from xdoctest.utils import util_import
+    names = set(sys.stdlib_module_names)
+    for m in pkgutil.iter_modules():
+        names.add(m.name)
+    for pkg in ['json', 'email', 'xml.dom', 'xml.etree', 'concurrent.futures', 'importlib', 'unittest', 'asyncio',
+                'collections', 'urllib', 'http', 'logging', 'multiprocessing', 'xdoctest', 'xdoctest.utils', '_pytest']:
+        try:
+            spec = importlib.util.find_spec(pkg)
+        except Exception:
+            continue
+        if spec and spec.submodule_search_locations:
+            for m in pkgutil.iter_modules(spec.submodule_search_locations):
+                names.add(pkg + '.' + m.name)
+    for n in sorted(names)[ctx.shard::ctx.nshards]:
+        try:
+            spec = importlib.util.find_spec(n)
+        except Exception:
+            continue
+        org = spec.origin if spec else None
+        if org == 'frozen':
+            org = getattr(getattr(spec, 'loader_state', None), 'filename', None)
+            if not org:
+                continue        # a frozen module that does not say where its source lives: nothing to compare with
+        real = org if org and os.path.exists(org) else None
+        ctx.evaluation()
+        case = {'corpus': 'installation', 'name': n}
+        try:
+            got = util_import.modname_to_modpath(n, hide_init=False)
+        except Exception as ex:
+            ctx.violation('resolve-raised', 'modname_to_modpath(%r) raised %r' % (n, ex), case)
+            continue
+        if (got and os.path.realpath(got)) != (real and os.path.realpath(real)):
+            ctx.violation('resolve', 'modname_to_modpath(%r) -> %r, the import system locates %r (sys.path as it is)' % (n, got, real),
+                          case, observed=got, expected=real,
+                          source_beside_extension=bool(got and real and real.endswith(tuple(M.EXTENSION_SUFFIXES)) and
+                                                       got.endswith('.py') and os.path.dirname(got) == os.path.dirname(real)))
+            continue
+        ctx.cell('installation:' + ('file' if real else 'not-a-file'))
+        if real and '.' in n:
+            ctx.nontrivial(('installation', n))
+        if real:
+            back = util_import.modpath_to_modname(got)
+            if back != n:
+                ctx.violation('roundtrip', 'modpath_to_modname(%r) -> %r, expected %r' % (got, back, n), case)
+            else:
+                ctx.cell('installation:roundtrip')
+
+
 def run_shard(ctx):
     warnings.simplefilter('ignore')
     n = ctx.pick(320, 4000)
     for idx in ctx.my_indices(n):
         check_tree(ctx, idx, ctx.case_seed(idx))
+    check_installation(ctx)
 
 
 def replay(case, ctx):
     warnings.simplefilter('ignore')
+    if case.get('corpus') == 'installation':
+        check_installation(ctx)
+        return
     check_tree(ctx, case['index'], case['case_seed'])
 
 
